@@ -12,7 +12,7 @@ RULE = ("(a) CombinedDataHandler.get_units on generated elections (boundary-heav
         "exactly at / one below the threshold, zero baselines, unit and state blocklists, feed rows with a missing results value, both unreporting policies, outlier models on with the flags "
         "captured); the three returned frames are compared row by row, inside Coq, with the procedural model AND with the decision table; "
         "(a') every second election also through ModelClient.get_estimates (rarely used limits included: 0, 0.25, 3, 5), unit table categories against the same rules; "
-        "(b) the single-unit decision table enumerated completely: unit-blocklisted x state-blocklisted x zero baseline x turnout factor "
+        "(a'') every fifth election as the second poll on a feed frame the caller keeps and updates in place; (b) the single-unit decision table enumerated completely: unit-blocklisted x state-blocklisted x zero baseline x turnout factor "
         "{<lo,=lo,inside,=hi,>hi} x expected vote {<thr,=thr,>thr} x turnout-flag x margin-flag (480 probe units + units outside the baseline) embedded "
         "in one election with a stubbed outlier model, both policies; (c) derived columns (margin, weights, normalised margin, turnout factor) "
         "recomputed and required finite. distinct = fingerprint (office, unit type, policy, threshold, estimands, set of categories); non-trivial = "
@@ -36,7 +36,7 @@ def has_nan(f, estimands):
     return any(f.get(c) is None or f.get(c) != f.get(c) for e in estimands for c in NEEDS[e])
 
 
-def run_get_units(case, stub_flags=None):
+def run_get_units(case, stub_flags=None, feed_frame=None):
     """returns (frames, flags) with flags = {'turnout_factor': [ids], 'results_normalized_margin': [ids]}"""
     from harness import run_impl
 
@@ -56,7 +56,7 @@ def run_get_units(case, stub_flags=None):
 
     C._fit_outlier_detection_model = wrapped
     try:
-        frames = run_impl.get_units(case)
+        frames = run_impl.get_units(case, feed_frame=feed_frame)
     finally:
         C._fit_outlier_detection_model = orig
     return frames, flags
@@ -204,8 +204,28 @@ def worker(job):
           "est": p["estimands"], "probe": bool(kw.get("probe"))}
     res = {"seed": seed, "kw": kw, "fp": fp, "nontrivial": False, "ok": False, "exc": None, "exprs": [], "labels": [], "problems": [], "s": [],
            "imports": IMPORTS, "regen": False}
+    feed_frame = None
+    if kw.get("feed_reuse") and not kw.get("probe"):
+        # a caller that keeps ONE feed frame: first poll, then the raw counts of some units are updated in that very frame
+        # (partially counted -> fully counted), then the poll that is checked
+        from harness import run_impl
+
+        rng2 = random.Random(seed + 7)
+        feed_frame = run_impl.frames(case)[1]
+        try:
+            run_impl.get_units(case, feed_frame=feed_frame)
+        except Exception:  # noqa: BLE001
+            pass
+        base_by = {b["geographic_unit_fips"]: b for b in case["baseline"]}
+        cand = [f for f in case["feed"] if f["geographic_unit_fips"] in base_by and f["percent_expected_vote"] < 100 and f.get("results_turnout") is not None
+                and base_by[f["geographic_unit_fips"]]["baseline_turnout"] > 0]
+        for f in rng2.sample(cand, min(5, len(cand))):
+            new = gen.live_row(rng2, base_by[f["geographic_unit_fips"]], 100)
+            for c in ("results_dem", "results_gop", "results_turnout", "percent_expected_vote"):
+                f[c] = new[c]
+                feed_frame.loc[(feed_frame["geographic_unit_fips"] == f["geographic_unit_fips"]) & (feed_frame["postal_code"] == f["postal_code"]), c] = new[c]
     try:
-        frames, flags = run_get_units(case, stub)
+        frames, flags = run_get_units(case, stub, feed_frame=feed_frame)
     except Exception as e:  # noqa: BLE001
         res["exc"] = (type(e).__name__, str(e)[:300])
         return res
@@ -296,7 +316,7 @@ def jobs_for(chk):
     jobs = [(0, {"probe": True, "policy": "drop"}), (1, {"probe": True, "policy": "zero"})]
     for i in range(n):
         pi = ["nonparametric", "bootstrap", "gaussian"][i % 3]
-        kw = {"pi_method": pi, "avoid_boot_nan_key": i % 2 == 0, "nan_rows": i % 2 == 1, "via_client": i % 2 == 0}
+        kw = {"pi_method": pi, "avoid_boot_nan_key": i % 2 == 0, "nan_rows": i % 2 == 1, "via_client": i % 2 == 0, "feed_reuse": i % 5 == 3}
         if i % 4 == 0:
             kw["threshold"] = rng.choice([0, 1, 50, 99, 100])
         if i % 6 == 0:
